@@ -382,13 +382,14 @@ func (v *PacketDslFormattor) VisitMatchFieldDeclaration(ctx *gen.MatchFieldDecla
 			key = pairCtx.DIGITS().GetText()
 		case pairCtx.List() != nil:
 			items := []string{}
-			// digit list
-			for _, num := range pairCtx.List().AllDIGITS() {
-				items = append(items, num.GetText())
-			}
-			// string list
-			for _, num := range pairCtx.List().AllSTRING() {
-				items = append(items, num.GetText())
+			// keys in source order (a list may mix digit and string keys)
+			for _, child := range pairCtx.List().GetChildren() {
+				if term, ok := child.(antlr.TerminalNode); ok {
+					switch term.GetSymbol().GetTokenType() {
+					case gen.PacketDslParserDIGITS, gen.PacketDslParserSTRING:
+						items = append(items, term.GetText())
+					}
+				}
 			}
 			key = formatStringList(items, 5)
 		}
